@@ -280,7 +280,8 @@ retry_fetch_lv:
 
         // skip callback. will called in findnext
         // expception: if start=end, findnext does not call cb, so need cb here
-        if (range_is_one_point) {
+        // (if the key continues in a next layer which does not exist, findnext does call cb)
+        if (range_is_one_point && key_tup.get_key_length() <= sizeof(key_slice_type)) {
             if (bnv_cb(target_border->get_version_ptr(), v_at_fetch_lv)) { return status::WARN_ABORTED_BY_USER; }
         }
 
@@ -467,7 +468,9 @@ retry_after_fb:
             if (!hit) { // reach to range end
                 // callback range, from last_key to range_end.
                 // if last_key = range_end_key and range_end_ep = INCLUSIVE, callback range is empty
-                if (!(eep == scan_endpoint::INCLUSIVE && last_key == ekt)) { // NOLINT(*-simplify-boolean-expr)
+                // a link tuple stands for a whole (possibly not yet existing) next layer, so the range is not empty
+                if (!(eep == scan_endpoint::INCLUSIVE && last_key == ekt &&
+                      ekt.get_key_length() <= sizeof(key_slice_type))) { // NOLINT(*-simplify-boolean-expr)
                     if (bnv_cb(bn->get_version_ptr(), v_at_fb)) {
                         return status::WARN_ABORTED_BY_USER;
                     }
@@ -571,7 +574,9 @@ retry_after_fb:
 
     // callback range, from last_key to range_end.
     // if last_key = range_end_key and range_end_ep = INCLUSIVE, callback range is empty
-    if (!(eep == scan_endpoint::INCLUSIVE && last_key == ekt)) { // NOLINT(*-simplify-boolean-expr)
+    // a link tuple stands for a whole (possibly not yet existing) next layer, so the range is not empty
+    if (!(eep == scan_endpoint::INCLUSIVE && last_key == ekt &&
+          ekt.get_key_length() <= sizeof(key_slice_type))) { // NOLINT(*-simplify-boolean-expr)
         if (bnv_cb(bn->get_version_ptr(), v_at_fb)) {
             return status::WARN_ABORTED_BY_USER;
         }
